@@ -364,7 +364,7 @@ def coq_case_check(tag, case, tol):
             f'{fh(case["vx"])} {fh(case["vy"])} {dist}')
     tol = tol + newton_slack(case)
     return (f'match {call} with None => false | Some (o_, i_) => '
-            f'close_list {fh(tol)} o_ {vlib.flist(case["data"])} && close_list {fh(1e-9)} i_ {vlib.flist(case["intensity"])} end')
+            f'close_list {fh(tol)} o_ {vlib.flist(case["data"])} && close_list {fh(1e-9 + 1e-3 * newton_slack(case))} i_ {vlib.flist(case["intensity"])} end')
 
 
 def coq_launch_check(tag, case, tol=1e-9):
